@@ -621,6 +621,11 @@ class Gen(object):
         out.append([Assign(V('i'), I(r.choice(['007', '00', '0']))), Assign(V('j'), Bin('-', I('12345678901234567890'), I('0010'))),
                     Assign(V('s'), Bin('+', Str(r.choice(['a // b', 'x//'])), Str(r.choice(['/* c */', '/*', '*/'])))),
                     Ret(Bin('+', Str(''), Str(r.choice(["it's 'x'", ' lead and trail ', 'end if;', '1.5']))))])
+        # white space inside a token belongs to the token: tabs and runs of blanks in strings and ticked phrases
+        out.append([Assign(V('t'), Bin('+', Str('a\tb'), Str(r.choice(['\t', 'x  y\t', ' \t ', 'two  blanks'])))),
+                    {'t': 'relate', 'a': 'x', 'b': 'y', 'rel': 'R1', 'ph': r.choice(["'is\tpart of'", "'two  blanks'", "'\t'"]), 'using': ''},
+                    {'t': 'select_related', 'card': 'many', 'v': 'r', 'h': V('x'),
+                     'chain': [{'k': 'B', 'rel': 'R1', 'ph': r.choice(["'has\ta'", "'a   b'"])}], 'haswhere': False, 'w': B(True)}])
         out.append([Assign(V('me'), {'t': 'self'}),
                     {'t': 'select_from', 'card': r.choice(['any', 'many']), 'v': 's', 'k': r.choice(['A', kwid()]), 'haswhere': True,
                      'w': Bin('==', {'t': 'selected'}, {'t': 'self'})},
